@@ -1,5 +1,6 @@
 import Driver.Common
 import ConcVerif.Model.Rcu
+import Driver.RcuInv
 open ConcVerif ConcVerif.Rcu
 
 namespace Driver.RcuD
@@ -210,11 +211,19 @@ def showO (o : Option Nat) : String :=
 def hndName : Hnd → String
   | .none => "none" | .fresh w => s!"fresh({w})" | .reg w r => s!"reg({w},Z{r})"
 
+/-- the model's `step`, followed by the executable invariant monitor of `Driver/RcuInv.lean`: a state that breaks an
+invariant is remembered and the next event of the run is rejected with the broken clause in the message -/
+def stepM (s : St × Option String) (t : Tid) (e : Ev) : Option (St × Option String) :=
+  match s.2 with
+  | some _ => none
+  | none => (step s.1 t e).map (fun s' => (s', RcuInv.check s' (List.range 10)))
+
 def comp : Comp :=
-  { name := "rcu", St := St, Ev := Ev,
-    init := fun _ => some init,
-    Aux := Unit, aux0 := (), parse := parse, step := step, edge := edge, edges := edges,
-    descr := fun s t =>
+  { name := "rcu", St := St × Option String, Ev := Ev,
+    init := fun _ => some (init, none),
+    Aux := Unit, aux0 := (), parse := parse, step := stepM, edge := fun s => edge s.1, edges := edges,
+    descr := fun (s, bad) t =>
+      (match bad with | some w => s!"INVARIANT-BROKEN[{w}] " | none => "") ++
       s!"pc={repr (s.pc t)} hnd={hndName (s.hnd t)} it={repr (s.it t)} head={showO s.head} tail={showO s.tail} zhead={showO s.zhead} wmtx={s.wmtx} nN={s.nN} nR={s.nR} log={s.log} lst={s.lst} live={s.live} dt={s.dt}" }
 
 end Driver.RcuD
